@@ -153,6 +153,7 @@ def replay(ck, em, rec):
     lwl = np.asarray(g.log_weighted_likelihood(X))
     if not same(lwl, exp_lwl):
         return bad("CachedFormIsDensity", "log_weighted_likelihood %s, expected %s" % (lwl.tolist(), exp_lwl.tolist()))
+    st = g.acc_stats(X)
     ll = np.asarray(g.log_likelihood(X))
     if not same(ll, exp_ll):
         return bad("LogSumExp", "log_likelihood %s, expected log-sum-exp of the exact terms %s" % (ll.tolist(), exp_ll.tolist()))
@@ -164,7 +165,20 @@ def replay(ck, em, rec):
         dl = np.asarray(g.log_likelihood(da.from_array(X, chunks=(tuple(rec["comp"]), D))).compute())
     if not same(dl, ll, 1e-13):
         return bad("ChunkEqBatch", "row-chunked Dask array %s scores %s, NumPy batch %s" % (rec["comp"], dl.tolist(), ll.tolist()))
-    st = g.acc_stats(X)
+    # a score asked of the machine is the score of the mixture it held WHEN ASKED: the lazy Dask results are evaluated
+    # only after the machine has been given other parameters through its setters (then the parameters are put back)
+    with dask.config.set(scheduler="synchronous"):
+        Xd = da.from_array(X, chunks=(tuple(rec["comp"]), D))
+        lazy_ll, lazy_lwl, lazy_st = g.log_likelihood(Xd), g.log_weighted_likelihood(Xd), g.acc_stats(Xd)
+        keep = (np.array(g.weights), np.array(g.means), np.array(g.variances))
+        g.means = keep[1] + 2.5
+        g.variances = keep[2] * 3.0
+        g.weights = keep[0][::-1].copy()
+        late = (np.asarray(dask.compute(lazy_ll)[0]), np.asarray(dask.compute(lazy_lwl)[0]), float(dask.compute(lazy_st.log_likelihood)[0]))
+        g.weights, g.means, g.variances = keep
+    if not (same(late[0], ll, 1e-13) and same(late[1], lwl, 1e-13) and same([late[2]], [float(st.log_likelihood)], 1e-12)):
+        return bad("ScoreIsOfTheMachineAsked", "Dask scores requested before the machine's parameters were changed and computed after: "
+                   "log_likelihood %s, the machine's answer when asked %s" % (late[0].tolist(), ll.tolist()))
     if not same([float(st.log_likelihood)], [float(sum(lse(row) for row in exp_terms))]):
         return bad("StatsLogLikelihood", "acc_stats(X).log_likelihood %r, expected %r" % (float(st.log_likelihood), float(sum(exp_ll))))
     # ---- the same machine and samples far from the origin (GmmDensity.AffineShift with a = 1: nothing may move)
